@@ -142,8 +142,21 @@ def verify(code=None, filename=DEFAULT_STUDENT_FILENAME, report=MAIN_REPORT,
         report[TOOL_NAME]['success'] = False
         report[TOOL_NAME]['ast'] = ast.parse("")
     except SyntaxError as e:
+        if e.lineno is None or e.offset is None:
+            # Some syntax errors (e.g., a NUL byte in the source) carry no position
+            e.lineno, e.offset = e.lineno or 1, e.offset or 1
         syntax_error(e.lineno, e.filename, code, e.offset, e,
                      sys.exc_info(), report=report, muted=muted, enhance=enhance)
+        report[TOOL_NAME]['success'] = False
+        report[TOOL_NAME]['ast'] = ast.parse("")
+    except (ValueError, RecursionError, MemoryError) as e:
+        # The parser can also reject a file without a SyntaxError: lone surrogates
+        # (UnicodeEncodeError), or code nested too deeply to parse.
+        rejected = SyntaxError(str(e) or type(e).__name__)
+        rejected.lineno, rejected.offset, rejected.filename = 1, 1, filename
+        syntax_error(1, filename, code, 1, rejected,
+                     (SyntaxError, rejected, e.__traceback__),
+                     report=report, muted=muted, enhance=enhance)
         report[TOOL_NAME]['success'] = False
         report[TOOL_NAME]['ast'] = ast.parse("")
     else:
